@@ -250,8 +250,8 @@ def extra_programs(tier):
             yield gid, '%s|levels-in-function=%s' % ('+'.join(s), ''.join(map(str, lv))), [], [('all-resolvable-calls', text, 'c%d' % gid, exp)]
     # generic host: the caller's type parameter is an argument type
     HOST = ('cmp', 'HostT', ())
-    ALPHA['g_T_oT'] = ('g_T_oT', ['T'], [(V('T'), False), (V('T'), True)])      # only used here: the default is an int literal
-    DEFAULTS[V('T')] = '0'
+    # (an overload whose optional parameter of type T defaults to an int literal used to be part of this pool: such a
+    # declaration is unsound — f("a") would bind the int to a str-typed parameter — and is rejected since e4c28d9)
     # the callee's type parameter inside a container, next to a bare occurrence: the caller's namesake parameter meets it inside
     # a sequence, a tuple, a user struct and a function type
     TUPV, FNV, CMPV = ('tup', (V('T'), 'int')), ('fn', (V('T'),), 'int'), ('cmp', 'HS', (V('T'),))
@@ -259,7 +259,7 @@ def extra_programs(tier):
     ALPHA['g_fnT_T'] = ('g_fnT_T', ['T'], [(FNV, False), (V('T'), False)])
     ALPHA['g_cmpT_T'] = ('g_cmpT_T', ['T'], [(CMPV, False), (V('T'), False)])
     ALPHA['g_tupA_B'] = ('g_tupA_B', ['A', 'B'], [(('tup', (V('A'), 'int')), False), (V('B'), False)])
-    top_pool = ['g_T', 'g_T_T', 'n_int', 'n_str', 'g_seqT', 'g_A_B', 'g_T_int', 'g_T_oT', 'g_seqT_T', 'g_tupT_T', 'g_fnT_T', 'g_cmpT_T', 'g_tupA_B']
+    top_pool = ['g_T', 'g_T_T', 'n_int', 'n_str', 'g_seqT', 'g_A_B', 'g_T_int', 'g_T_oint', 'g_seqT_T', 'g_tupT_T', 'g_fnT_T', 'g_cmpT_T', 'g_tupA_B']
     wide = set(top_pool[8:])
     nested_pool = [('nh_T', [], [(HOST, False)]), ('nh_T_T', [], [(HOST, False), (HOST, False)]), ('nh_seqT', [], [(nat('Sequence', HOST), False)]), ('nh_T_int', [], [(HOST, False), ('int', False)])]
     TUPH, FNH, CMPH = ('tup', (HOST, 'int')), ('fn', (HOST,), 'int'), ('cmp', 'HS', (HOST,))
